@@ -257,6 +257,21 @@ func (c *Ctx) Field(n *types.Named, name string) *types.Var {
 	return nil
 }
 
+// FieldOpt is Field without the anchor-missing failure.
+func (c *Ctx) FieldOpt(n *types.Named, name string) *types.Var {
+	if n == nil {
+		return nil
+	}
+	if st, _ := n.Underlying().(*types.Struct); st != nil {
+		for i := 0; i < st.NumFields(); i++ {
+			if st.Field(i).Name() == name {
+				return st.Field(i)
+			}
+		}
+	}
+	return nil
+}
+
 // Func resolves a package-level function to its SSA function.
 func (c *Ctx) Func(rel, name string) *ssa.Function {
 	sp := c.SSA[pkgPath(rel)]
